@@ -289,8 +289,14 @@ pub fn wf_map<K: SimK, V: SimV, const C: usize>(name: &str, m: &Map<K, V, C>, ly
             }
         }
     }
-    // every yielded key can be looked up and returns the value yielded with it
-    for (k, v) in &ents {
+    // every yielded key can be looked up and returns the value yielded with it (in containers with
+    // more than 64 entries: the first and last eight and every (len/16)-th one, to keep the cost linear)
+    let n_ents = ents.len();
+    let stride = if n_ents > 64 { n_ents / 16 } else { 1 };
+    for (i, (k, v)) in ents.iter().enumerate() {
+        if !(i < 8 || i + 8 >= n_ents || i % stride == 0) {
+            continue;
+        }
         let pk = k.peek();
         let want = *v as *const V;
         let q = Class(pk.class);
@@ -374,7 +380,12 @@ pub fn wf_set<K: SimK, const C: usize>(name: &str, s: &Set<K, C>, lying: bool) {
             }
         }
     }
-    for k in &ents {
+    let n_ents = ents.len();
+    let stride = if n_ents > 64 { n_ents / 16 } else { 1 };
+    for (i, k) in ents.iter().enumerate() {
+        if !(i < 8 || i + 8 >= n_ents || i % stride == 0) {
+            continue;
+        }
         let pk = k.peek();
         let q = Class(pk.class);
         let want = Some(*k as *const K);
